@@ -997,6 +997,39 @@ func c19Excerpt(a, b string) string {
 
 // ---------------------------------------------------------------- one task = (program, target, options)
 
+// c19ParallelRuns: run the repetitions of one task concurrently (set outside the suite's
+// worker pool, where the tasks themselves are the unit of parallelism).
+var c19ParallelRuns = false
+
+// c19Shrink removes items (scopes, services, constants, …, includes) one at a time while
+// the same failure persists, within a time budget; cheap because a removal that breaks a
+// reference just fails to compile.
+func c19Shrink(p *c19Prog, keep []bool, cfg int, what string, budget time.Duration) []bool {
+	deadline := time.Now().Add(budget)
+	cur := append([]bool{}, keep...)
+	c19ParallelRuns = true
+	defer func() { c19ParallelRuns = false }()
+	fails := func(k []bool) bool {
+		r := c19Task(p, k, cfg, 8, false)
+		return !r.ok && r.invalid == "" && r.what == what
+	}
+	for _, kind := range []string{"inc", "scope", "service", "const", "union", "exception", "struct", "enum", "typedef", "ns"} {
+		for i := len(p.items) - 1; i >= 0; i-- {
+			if time.Now().After(deadline) {
+				return cur
+			}
+			if !cur[i] || p.items[i].kind != kind {
+				continue
+			}
+			cur[i] = false
+			if !fails(cur) {
+				cur[i] = true
+			}
+		}
+	}
+	return cur
+}
+
 var c19ModRe = regexp.MustCompile(`<td><a href="([^"#]+)\.html">`)
 
 type c19Result struct {
@@ -1075,9 +1108,21 @@ func c19TaskFiles(p *c19Prog, files map[string]string, cfg int, R int, inproc bo
 		res.invalid = "layout: " + err.Error()
 		return res
 	}
-	runs := make([]c19Run, 0, R+1)
-	for _, l := range layouts {
-		runs = append(runs, c19Exec(l, gen))
+	runs := make([]c19Run, len(layouts), R+1)
+	if c19ParallelRuns { // replays and shrinking: the R processes of one task side by side
+		var wg sync.WaitGroup
+		for i := range layouts {
+			wg.Add(1)
+			go func(i int) {
+				defer wg.Done()
+				runs[i] = c19Exec(layouts[i], gen)
+			}(i)
+		}
+		wg.Wait()
+	} else {
+		for i, l := range layouts {
+			runs[i] = c19Exec(l, gen)
+		}
 	}
 	if inproc {
 		l := layouts[0]
@@ -1318,6 +1363,8 @@ func runC19(r *Rng, n int) {
 		}
 	}
 	var wg sync.WaitGroup
+	var failMu sync.Mutex
+	var failed []task
 	ch := make(chan task)
 	for w := 0; w < c19Workers(); w++ {
 		wg.Add(1)
@@ -1326,6 +1373,11 @@ func runC19(r *Rng, n int) {
 			for t := range ch {
 				keep := c19AllKeep(t.p)
 				res := c19Task(t.p, keep, t.cfg, R, true)
+				if !res.ok && res.invalid == "" {
+					failMu.Lock()
+					failed = append(failed, task{t.p, t.cfg})
+					failMu.Unlock()
+				}
 				c19Report(t.p, keep, t.cfg, res)
 			}
 		}()
@@ -1335,6 +1387,35 @@ func runC19(r *Rng, n int) {
 	}
 	close(ch)
 	wg.Wait()
+	// shrink the first failures (one per target language) and report the smaller programs too
+	seenLang := map[string]bool{}
+	for _, t := range failed {
+		lang, _ := c19Lang(c19Cfgs[t.cfg].gen)
+		if seenLang[lang] || len(seenLang) >= 3 {
+			continue
+		}
+		seenLang[lang] = true
+		keep := c19AllKeep(t.p)
+		first := c19Task(t.p, keep, t.cfg, 8, false)
+		if first.ok || first.invalid != "" {
+			continue
+		}
+		small := c19Shrink(t.p, keep, t.cfg, first.what, 60*time.Second)
+		c19ParallelRuns = true
+		res := c19Task(t.p, small, t.cfg, 8, false)
+		c19ParallelRuns = false
+		if !res.ok && res.invalid == "" {
+			n := 0
+			for _, k := range small {
+				if k {
+					n++
+				}
+			}
+			res.detail["shrunk_items"] = n
+			res.detail["shrunk_from_items"] = len(keep)
+			OracleFail(res.what, res.detail)
+		}
+	}
 }
 
 func clipStr(s string, n int) string {
@@ -1396,6 +1477,7 @@ func init() {
 		if R < 8 { // a replay (corpus, shrinking) should not miss a difference that shows in some runs only
 			R = 8
 		}
+		c19ParallelRuns = true
 		res := c19Task(p, keep, cfg, R, false)
 		if res.invalid != "" { // the same failure in every run: no output anywhere, trivially the same
 			Stat("c19det-invalid-program")
@@ -1423,6 +1505,7 @@ func init() {
 			return "missing", true
 		}
 		p := &c19Prog{paths: []string{"main.frugal"}}
+		c19ParallelRuns = true
 		res := c19TaskFiles(p, files, cfg, R, false, "c19dir "+strings.Join(args, " "))
 		if res.invalid != "" {
 			OracleFail("c19: corpus program does not compile: "+args[2]+": "+res.invalid, map[string]interface{}{"line": "c19dir " + strings.Join(args, " ")})
